@@ -80,7 +80,8 @@ class ResizableFile(object):
     def __init__(self, fileName, initialSize = 1024, resizeFactor = 2.0, defaultContent = None):
         self.__fileName = fileName
         self.__resizeFactor = resizeFactor
-        if not os.path.exists(fileName):
+        # (an empty file is what a kill between creating the file and writing its header leaves behind)
+        if not os.path.exists(fileName) or os.path.getsize(fileName) == 0:
             with open(fileName, 'wb') as f:
                 if defaultContent is not None:
                     f.write(defaultContent)
